@@ -19,7 +19,10 @@ static int entered_total;
 
 static pboolean do_lock(void)    { return KIND == 'm' ? p_mutex_lock(mtx) : p_spinlock_lock(spn); }
 static pboolean do_trylock(void) { return KIND == 'm' ? p_mutex_trylock(mtx) : p_spinlock_trylock(spn); }
-static pboolean do_unlock(void)  { return KIND == 'm' ? p_mutex_unlock(mtx) : p_spinlock_unlock(spn); }
+static pboolean raw_unlock(void) { return KIND == 'm' ? p_mutex_unlock(mtx) : p_spinlock_unlock(spn); }
+static const char *kn(void);
+/* unlocking a lock the caller holds succeeds */
+static pboolean do_unlock(void)  { pboolean ok = raw_unlock(); if (!ok) { char sig[64]; snprintf(sig, sizeof sig, "%s/unlock-returned-false", kn()); mc_fail("C01", sig, "unlock of a lock held by the caller returned FALSE"); } return ok; }
 static const char *kn(void) { return KIND == 'm' ? "mutex" : "spinlock"; }
 
 static void enter_cs(const char *how)
